@@ -291,6 +291,28 @@ func GenRecs(t *rapid.T, s Schema, maxN int, distinctTS bool) []model.Rec {
 	tss := GenTimestamps(t, n, 40, distinctTS)
 	recs := make([]model.Rec, n)
 	for i := range recs {
+		// A twin of the previous record: the same line, the same labels except that one of them
+		// is gone and another one, which the previous record lacks, is there with an empty
+		// value (as many labels, all shared ones equal).
+		if i > 0 && len(s.Labels) >= 2 && rapid.IntRange(0, 9).Draw(t, "twin") == 0 {
+			prev := recs[i-1]
+			r := model.Rec{TS: tss[i], Line: prev.Line, Doc: prev.Doc, Labels: map[string]string{}}
+			var have, lack []string
+			for _, l := range s.Labels {
+				if v, ok := prev.Labels[l.Name]; ok {
+					r.Labels[l.Name] = v
+					have = append(have, l.Name)
+				} else {
+					lack = append(lack, l.Name)
+				}
+			}
+			if len(have) > 0 && len(lack) > 0 {
+				delete(r.Labels, rapid.SampledFrom(have).Draw(t, "twin-drop"))
+				r.Labels[rapid.SampledFrom(lack).Draw(t, "twin-add")] = ""
+			}
+			recs[i] = r
+			continue
+		}
 		r := model.Rec{TS: tss[i], Labels: map[string]string{}}
 		for _, l := range s.Labels {
 			if v, ok := drawValue(t, l, "l-"+l.Name); ok {
